@@ -48,6 +48,11 @@ type tcase struct {
 	//               with exactly the members the model's fold leaves, written with explicit values; omitted
 	//               when nothing survives), an unrelated enumeration {x, y}, string
 	//   "dr" "da"   the inline type of `deviate replace` / `deviate add` in module m deviating leaf l of module o
+	//   "n0" "nm" "nv" "n+"  member 2 of a union { near twin, generated type, string }: the near twin (in Twin) is the
+	//               table the model's fold leaves with exactly one difference - the zero-valued member renamed /
+	//               the maximum-valued member renamed / one value changed under the same names / one more member.
+	//               The union has to keep BOTH members, each with its own table: every member of the kind is
+	//               read back in order, the first must hold the near twin's table, the second the model's.
 	// With errors the forms typedef, chain, dr, da compare the errors only (no resolved type reaches the leaf).
 	Hist string   `json:"hist,omitempty"`
 	Form string   `json:"form,omitempty"`
@@ -215,6 +220,14 @@ func yangFiles(c tcase) (files [][2]string, firstLine int) {
 		}
 		pre = head + " leaf l { type union {\n" + strings.Join(others[:at], "")
 		post = "\n" + strings.Join(others[at:], "") + " } } }\n"
+	case "n0", "nm", "nv", "n+":
+		tw := "type " + tn + " {"
+		for _, nv := range c.Twin {
+			kv := strings.SplitN(nv, ":", 2)
+			tw += " " + mk + " " + kv[0] + " { " + vk + " " + kv[1] + "; }"
+		}
+		pre = head + " leaf l { type union {\n" + tw + " }\n"
+		post = "\ntype string;\n } } }\n"
 	case "dr", "da":
 		files = append(files, [2]string{"o.yang", "module o { namespace \"urn:o\"; prefix o; leaf l { type string; } }\n"})
 		how := "replace"
@@ -285,6 +298,76 @@ func tables(c tcase, ms *yang.Modules) []*yang.EnumType {
 	return []*yang.EnumType{pick(typeOf(yang.ToEntry(ms.Modules["m"]), "l"))}
 }
 
+func isNear(form string) bool { return form == "n0" || form == "nm" || form == "nv" || form == "n+" }
+
+// expectDump is the dump of a table given as written members "name:value" (no errors).
+func expectDump(members []string) string {
+	type nv struct {
+		n string
+		v int64
+	}
+	var ms []nv
+	byVal := map[int64]string{}
+	for _, m := range members {
+		kv := strings.SplitN(m, ":", 2)
+		v, _ := strconv.ParseInt(kv[1], 10, 64)
+		ms = append(ms, nv{kv[0], v})
+		byVal[v] = kv[0] // the later of two bits on one position names it
+	}
+	sort.Slice(ms, func(i, j int) bool { return ms[i].n < ms[j].n })
+	var names, nm, values, vm []string
+	var vs []int64
+	for _, m := range ms {
+		names = append(names, lib.HexS(m.n))
+		nm = append(nm, lib.HexS(m.n)+":"+strconv.FormatInt(m.v, 10))
+		vs = append(vs, m.v)
+	}
+	sort.Slice(vs, func(i, j int) bool { return vs[i] < vs[j] })
+	for _, v := range vs {
+		values = append(values, strconv.FormatInt(v, 10))
+	}
+	var ks []int64
+	for k := range byVal {
+		ks = append(ks, k)
+	}
+	sort.Slice(ks, func(i, j int) bool { return ks[i] < ks[j] })
+	for _, k := range ks {
+		vm = append(vm, strconv.FormatInt(k, 10)+":"+lib.HexS(byVal[k]))
+	}
+	return "errs= names=" + strings.Join(names, ",") + " values=" + strings.Join(values, ",") +
+		" namemap=" + strings.Join(nm, ",") + " valuemap=" + strings.Join(vm, ",")
+}
+
+// nearAnswer reads back every member of the case's kind from the union of a near-twin case: there must
+// be two, the first holding the near twin's table; the answer is then the dump of the second.
+func nearAnswer(c tcase, ms *yang.Modules, errs []string) string {
+	l := yang.ToEntry(ms.Modules["m"]).Dir["l"]
+	if l == nil || l.Type == nil {
+		return dump(nil, errs)
+	}
+	var tabs []*yang.EnumType
+	for _, t := range l.Type.Type {
+		e := t.Enum
+		if c.Kind == "b" {
+			e = t.Bit
+		}
+		if e != nil {
+			tabs = append(tabs, e)
+		}
+	}
+	if len(tabs) != 2 {
+		var ds []string
+		for _, e := range tabs {
+			ds = append(ds, dump(e, nil))
+		}
+		return fmt.Sprintf("union-keeps-%d-of-2-members errs=%s: %s", len(tabs), strings.Join(errs, ","), strings.Join(ds, " ## "))
+	}
+	if got, want := dump(tabs[0], nil), expectDump(c.Twin); got != want {
+		return "near-twin-table-changed: " + got + " want " + want
+	}
+	return dump(tabs[1], errs)
+}
+
 // runGo runs the real code on one case.
 func runGo(c tcase) (out string) {
 	defer func() {
@@ -328,6 +411,10 @@ func runGo(c tcase) (out string) {
 	var dumps []string
 	look := func(raw []error) {
 		errs := classify(c, firstLine, raw)
+		if isNear(c.Form) {
+			dumps = append(dumps, nearAnswer(c, ms, errs))
+			return
+		}
 		for _, e := range tables(c, ms) {
 			dumps = append(dumps, project(c, dump(e, errs)))
 		}
@@ -424,6 +511,12 @@ func judge(c tcase, g, s string) (bool, string) {
 		}
 		return true, "the runs differ, each satisfies the specification"
 	}
+	if strings.HasPrefix(g, "union-keeps-") {
+		return false, "a member of the union lost its table (taken for a duplicate of a different type, or dropped): " + g
+	}
+	if strings.HasPrefix(g, "near-twin-table-changed") {
+		return false, "the table of another member of the union changed: " + g
+	}
 	if !strings.HasPrefix(g, "errs=") {
 		return false, "Go did not produce a result: " + g
 	}
@@ -508,11 +601,84 @@ func choices(path string) []choice {
 }
 
 var newForms = []string{"leaflist", "chain", "grouping", "u1", "u2", "u3", "dr", "da"}
+var nearForms = []string{"n0", "nm", "nv", "n+"}
+
+// nearOf derives a near twin from the surviving members (written order, "name:value"); ok = false when
+// the variant does not apply (no zero-valued member, empty table).
+func nearOf(kind, form string, twin []string) (out []string, ok bool) {
+	lo, hi := int64(-1<<31), int64(1<<31-1)
+	if kind == "b" {
+		lo, hi = 0, 1<<32-1
+	}
+	names := make([]string, len(twin))
+	vals := make([]int64, len(twin))
+	used := map[int64]bool{}
+	maxAt := -1
+	for i, m := range twin {
+		kv := strings.SplitN(m, ":", 2)
+		names[i] = kv[0]
+		vals[i], _ = strconv.ParseInt(kv[1], 10, 64)
+		used[vals[i]] = true
+		if maxAt < 0 || vals[i] > vals[maxAt] {
+			maxAt = i
+		}
+	}
+	fresh := func() int64 { // a value in range that no member has
+		var cands []int64
+		if maxAt >= 0 {
+			cands = append(cands, vals[maxAt]+1)
+		}
+		for v := int64(0); v < 16; v++ {
+			cands = append(cands, v)
+		}
+		for _, v := range cands {
+			if v >= lo && v <= hi && !used[v] {
+				return v
+			}
+		}
+		return lo
+	}
+	emit := func() []string {
+		var o []string
+		for i := range names {
+			o = append(o, names[i]+":"+strconv.FormatInt(vals[i], 10))
+		}
+		return o
+	}
+	switch form {
+	case "n0":
+		for i := range vals {
+			if vals[i] == 0 {
+				names[i] = "q"
+				return emit(), true
+			}
+		}
+		return nil, false
+	case "nm":
+		if maxAt < 0 {
+			return nil, false
+		}
+		names[maxAt] = "q"
+		return emit(), true
+	case "nv":
+		if maxAt < 0 {
+			return nil, false
+		}
+		vals[maxAt] = fresh()
+		return emit(), true
+	case "n+":
+		names = append(names, "q")
+		vals = append(vals, fresh())
+		return emit(), true
+	}
+	return nil, false
+}
 
 // expand returns the text case c (a bare statement list) in every history in a leaf, in the typedef form
 // under the two histories that process twice (when wanted), and in every other placement (history a).
-// twin: the members the model's fold leaves (for the union placements).
-func expand(c tcase, typedefToo bool, twin []string) []tcase {
+// twin: the members the model's fold leaves (for the union placements).  rot < 0: every placement;
+// rot = 0, 1, 2: every third of the twelve placements beyond leaf and typedef, starting at rot.
+func expand(c tcase, typedefToo bool, twin []string, rot int) []tcase {
 	var out []tcase
 	for _, h := range []string{"a", "b", "c", "d"} {
 		x := c
@@ -526,13 +692,26 @@ func expand(c tcase, typedefToo bool, twin []string) []tcase {
 			out = append(out, x)
 		}
 	}
-	for _, fm := range newForms {
+	for k, fm := range newForms {
+		if rot >= 0 && k%3 != rot {
+			continue
+		}
 		x := c
 		x.Hist, x.Form = "a", fm
 		if fm[0] == 'u' {
 			x.Twin = twin
 		}
 		out = append(out, x)
+	}
+	for k, fm := range nearForms {
+		if rot >= 0 && (len(newForms)+k)%3 != rot {
+			continue
+		}
+		if near, ok := nearOf(c.Kind, fm, twin); ok {
+			x := c
+			x.Hist, x.Form, x.Twin = "a", fm, near
+			out = append(out, x)
+		}
 	}
 	return out
 }
@@ -692,7 +871,7 @@ func main() {
 	// placements and histories
 	var cases []tcase
 	var ans, specAns []string
-	allForms := append([]string{"", "typedef"}, newForms...)
+	allForms := append(append([]string{"", "typedef"}, newForms...), nearForms...)
 	for i, b := range bases {
 		var xs []tcase
 		switch {
@@ -708,9 +887,24 @@ func main() {
 			if strings.HasPrefix(x.Form, "u") {
 				x.Twin = twinOf(b.c, baseAns[i])
 			}
+			if isNear(x.Form) {
+				near, ok := nearOf(x.Kind, x.Form, twinOf(b.c, baseAns[i]))
+				if ok {
+					x.Twin = near
+				} else {
+					x.Form = "u2"
+					x.Twin = twinOf(b.c, baseAns[i])
+				}
+			}
 			xs = []tcase{x}
 		default:
-			xs = expand(b.c, b.typedefToo, twinOf(b.c, baseAns[i]))
+			// quick tier: the lists of length 3 take every third placement (seeded choice of the third),
+			// shorter ones and the thorough tier take all
+			rot := -1
+			if !f.Thorough() && len(b.c.Names) >= 3 {
+				rot = r.Intn(3)
+			}
+			xs = expand(b.c, b.typedefToo, twinOf(b.c, baseAns[i]), rot)
 		}
 		for _, x := range xs {
 			cases = append(cases, x)
@@ -801,8 +995,9 @@ func main() {
 		"(45 choices per member, so duplicate names and three distinct names both occur), for enumeration and for bits; plus %d cases with odd argument spellings on the text path and %d seeded random sequences of length 4..10 over 6 names. "+
 		"Every text case goes through four histories of one Modules value - (a) Parse, Process; (b) Parse, Process, Process; (c) Parse, ToEntry(module), Process; (d) Parse, Process, Parse of an unrelated module, Process - "+
 		"and the result is taken after EVERY run (and after the early read in c); sequences up to length 2 and the odd spellings also with the type in a typedef (histories b, d). "+
-		"Every enumerated and odd statement list is also placed (history a) in a leaf-list, in a typedef used through a chain of three, in a grouping used twice (both copies read), as member 1 / 2 / 3 of a union beside "+
-		"its twin (exactly the members the model's fold leaves), an unrelated enumeration and string, and as the inline type of deviate replace / deviate add on a leaf of another module; the random ones get one random placement. "+
+		"Every enumerated and odd statement list is also placed (history a; in the quick tier the lists of length 3 take a seeded third of these twelve placements, in the thorough tier all) in a leaf-list, in a typedef used through a chain of three, in a grouping used twice (both copies read), as member 1 / 2 / 3 of a union beside "+
+		"its twin (exactly the members the model's fold leaves), an unrelated enumeration and string, as the inline type of deviate replace / deviate add on a leaf of another module, "+
+		"and as member 2 of a union behind a near twin (the surviving table with the zero-valued member renamed / the maximum-valued member renamed / one value changed / one more member), where every member of the union is read back and both tables must be intact; the random ones get one random placement. "+
 		"Every Go answer (errors as member index + class, Names, Values, NameMap, ValueMap, point lookups) of every run is compared with the compiled model and judged against the RFC 7950 assignment. "+
 		"distinct_nontrivial = distinct cases with at least two members (the assignment rule is about earlier members)", maxLen, oddCount, nRand)
 	res.Distribution["enumerated_sequences"] = enumerated
